@@ -122,10 +122,13 @@ func (s *sched) raceSync(t *thread, o *op, a int) {
 }
 
 func accessSite() string {
-	var pcs [8]uintptr
+	var pcs [12]uintptr
 	n := runtime.Callers(3, pcs[:])
 	fr := runtime.CallersFrames(pcs[:n])
-	f, _ := fr.Next()
+	f, more := fr.Next()
+	for more && (strings.Contains(f.File, "/zz_verif/vs/") || strings.Contains(f.File, "/engine/vs/")) {
+		f, more = fr.Next()
+	}
 	file := f.File
 	if i := strings.LastIndex(file, "/"); i >= 0 {
 		file = file[i+1:]
@@ -176,3 +179,36 @@ func Rd[T any](p *T) *T { raceAccess(unsafe.Pointer(p), false); return p }
 
 // Wr records a write of *p and returns p.
 func Wr[T any](p *T) *T { raceAccess(unsafe.Pointer(p), true); return p }
+
+func mapObj[K comparable, V any](m map[K]V) unsafe.Pointer {
+	return *(*unsafe.Pointer)(unsafe.Pointer(&m))
+}
+
+// RdM records a read of the map-typed field *p and of the map it holds.
+func RdM[K comparable, V any](p *map[K]V) *map[K]V {
+	if s := S; s != nil && s.race != nil {
+		raceAccess(unsafe.Pointer(p), false)
+		if o := mapObj(*p); o != nil {
+			raceAccess(o, false)
+		}
+	}
+	return p
+}
+
+// WrM records a write of the map-typed field *p (assignment of a new map).
+func WrM[K comparable, V any](p *map[K]V) *map[K]V {
+	if s := S; s != nil && s.race != nil {
+		raceAccess(unsafe.Pointer(p), true)
+	}
+	return p
+}
+
+// MapDel is the instrumented delete(m, k).
+func MapDel[K comparable, V any](m map[K]V, k K) {
+	if s := S; s != nil && s.race != nil {
+		if o := mapObj(m); o != nil {
+			raceAccess(o, true)
+		}
+	}
+	delete(m, k)
+}
